@@ -235,3 +235,32 @@ func init() {
 		}
 	}
 }
+
+func init() {
+	debugCmds["hpaths"] = func(args []string) {
+		p, _ := loadProg("/repo", "")
+		fn := p.Func(args[0], args[1], args[2])
+		var header *ssa.BasicBlock
+		for _, b := range fn.Blocks {
+			if isLoopHeader(b) {
+				header = b
+				break
+			}
+		}
+		ps, err := enumPaths(header, nil, nil, 5000)
+		fmt.Println(err, len(ps))
+		for _, d := range ps {
+			if d.EndKind != "return" {
+				continue
+			}
+			var rs []string
+			for _, r := range d.Ret.Results {
+				rs = append(rs, atomName(d.Env.Term(r)))
+			}
+			if len(args) > 3 && !strings.Contains(d.CondString(), args[3]) {
+				continue
+			}
+			fmt.Println("WHEN", callOrdinal.ReplaceAllString(d.CondString(), ""), "\n   =>", strings.Join(rs, " , "))
+		}
+	}
+}
